@@ -466,6 +466,14 @@ impl Ctx {
             self.violation(key, || "outcome depends on bytes outside the permitted extent (differs between fill patterns A and B)".into());
         }
     }
+    /// A finding about the harness's own assumptions: never a verdict (exit 2).
+    pub fn machinery(&mut self, msg: &str) {
+        if self.shadow {
+            return;
+        }
+        eprintln!("MACHINERY {} (leaf {})", msg, self.cur_leaf);
+        std::process::exit(2);
+    }
     pub fn violations_so_far(&self) -> u64 {
         self.viol_total
     }
